@@ -729,7 +729,8 @@ impl AEADBodyCodec {
 //@@ octo-squirrel/src/codec/vmess/aead.rs:204-210  fn new_aead_chunk_size_cipher  sha=8c799de89cf4fcaf
 fn new_aead_chunk_size_cipher(security: SecurityType, key: &[u8]) -> (r: Result<Authenticator, InvalidLength>)
     ensures
-        //#C03 C16
+        //#C03 C16 C12 C05
+        // (the length cipher has a key of its own, KDF(chunk key, "auth_len"): with the payload key it would share (key, nonce) pairs with the payload cipher)
         r matches Ok(a) && a.wf() && a.cnt() == 0 && a.alg() == sec_alg(security) && a.key() == sec_key(security, vkdf(key@, seq![lbl_auth_len()]).take(16)),
  {
     let key = &kdf__kdf16(key, vec![AUTH_LEN]);
@@ -744,7 +745,7 @@ fn new_aead_chunk_size_cipher(security: SecurityType, key: &[u8]) -> (r: Result<
 fn new_aead_cipher(security: SecurityType, key: &[u8]) -> (r: CipherMethod)
     requires key@.len() >= (if security is Chacha20Poly1305 { 32int } else { 16int }),
     ensures
-        //#C03 C16
+        //#C03 C16 C12
         r.alg() == sec_alg(security), r.key() == key@.take(if security is Chacha20Poly1305 { 32int } else { 16int }),
  {
     match security {
